@@ -10,6 +10,7 @@ import (
 	corev1 "k8s.io/api/core/v1"
 	"k8s.io/apimachinery/pkg/api/resource"
 	metav1 "k8s.io/apimachinery/pkg/apis/meta/v1"
+	"k8s.io/apimachinery/pkg/types"
 	k8sfeature "k8s.io/apiserver/pkg/util/feature"
 	"k8s.io/component-base/featuregate"
 	"pgregory.net/rapid"
@@ -65,11 +66,10 @@ func c02QuotaObject(q *c02Quota) *v1alpha1.ElasticQuota {
 
 func c02PodObject(quota string, p c02Pod) *corev1.Pod {
 	pod := &corev1.Pod{
-		ObjectMeta: metav1.ObjectMeta{Name: p.Name, Namespace: "ns-" + quota, UID: "uid-" + metav1.Now().Format("")[:0] + p.Name},
+		ObjectMeta: metav1.ObjectMeta{Name: p.Name, Namespace: "ns-" + quota, UID: types.UID("uid-" + p.Name)},
 		Spec: corev1.PodSpec{Containers: []corev1.Container{{Name: "c", Resources: corev1.ResourceRequirements{
 			Requests: c02ResList(p.Req[0], p.Req[1])}}}},
 	}
-	pod.UID = "uid-" + pod.UID[4:]
 	if p.Assigned {
 		pod.Spec.NodeName = "node-1"
 		pod.Status.Phase = corev1.PodRunning
